@@ -178,7 +178,7 @@ Definition r_kill (t : rthread) : bool := match r_pc t with RcStDead _ _ | RcStR
 (* what the reader knows at each pc; pend > 0 = the writer has advanced write_pt over a chunk it has not
    published yet (that chunk's marker word is ALLOC) *)
 Definition rinv (W RP : Z) (q : list chunk) (pend : Z) (t : rthread) : Prop :=
-  (r_have t = true -> exists c q', q = c :: q' /\ r_buf t = c) /\
+  (r_have t = true -> exists c q', q = c :: q' /\ r_buf t = c /\ r_size t = zlen c) /\
   (in_rc (r_pc t) = true -> is_read (rcur t) = true -> r_have t = true) /\
   match r_pc t with
   | RStart | RCall | RRdRpt | RFailPost | RNoBufPost | RcRdRpt => True
@@ -471,7 +471,7 @@ Qed.
 (* the part of rinv that a return to RCall needs *)
 Lemma rinv_ret : forall W RP q pend t, rinv W RP q pend t -> rinv W RP q pend (r_ret t).
 Proof.
-  intros W RP q pend t (Hh & _ & _). unfold rinv; cbn [r_ret r_pc r_have r_buf in_rc].
+  intros W RP q pend t (Hh & _ & _). unfold rinv; cbn [r_ret r_pc r_have r_buf r_size in_rc].
   repeat split; auto. discriminate.
 Qed.
 
@@ -574,9 +574,9 @@ Proof.
     destruct (zlen c <=? 0) eqn:Ez.
     { assert (c = []) by (apply zlen_zero_nil; lia). subst c.
       unfold copy_done in H. destruct (is_read (rcur t)) eqn:Eread; inversion H; subst r; clear H.
-      - apply r_nomem; auto. unfold rinv; cbn [r_pc r_have r_buf in_rc rcur r_prog].
+      - apply r_nomem; auto. unfold rinv; cbn [r_pc r_have r_buf r_size in_rc rcur r_prog].
         split; [intros _; exists [], q0; auto|]. split; [auto|exact I].
-      - apply r_nomem; auto. unfold rinv; cbn [r_ret r_pc r_have r_buf in_rc].
+      - apply r_nomem; auto. unfold rinv; cbn [r_ret r_pc r_have r_buf r_size in_rc].
         split; [intros _; exists [], q0; auto|]. split; [intros; discriminate|exact I]. }
     inversion H; subst r; clear H. apply r_nomem; auto.
     unfold rinv; cbn [r_pc r_have r_buf r_size r_acc in_rc].
@@ -604,9 +604,9 @@ Proof.
       { rewrite Hacc'. apply firstn_all2. unfold zlen in *. lia. }
       rewrite Hall in H.
       unfold copy_done in H. destruct (is_read (rcur t)) eqn:Eread; inversion H; subst r; clear H.
-      * apply r_nomem; auto. unfold rinv; cbn [r_pc r_have r_buf in_rc rcur r_prog].
+      * apply r_nomem; auto. unfold rinv; cbn [r_pc r_have r_buf r_size in_rc rcur r_prog].
         split; [intros _; exists c, q0; auto|]. split; [auto|exact I].
-      * apply r_nomem; auto. unfold rinv; cbn [r_ret r_pc r_have r_buf in_rc].
+      * apply r_nomem; auto. unfold rinv; cbn [r_ret r_pc r_have r_buf r_size in_rc].
         split; [intros _; exists c, q0; auto|]. split; [intros; discriminate|exact I].
   - (* RcRdRpt *)
     unfold act_rc_rd_rpt, rgo in H. inversion H; subst r; clear H.
@@ -692,7 +692,7 @@ Proof.
     split.
     { exists c. split; [reflexivity|]. split; [|reflexivity].
       unfold gmatch. destruct (r_have t) eqn:Eh; [|exact I].
-      destruct (Hhave eq_refl) as (c' & q' & Hqq & Hb). inversion Hqq; subst. reflexivity. }
+      destruct (Hhave eq_refl) as (c' & q' & Hqq & Hb & _). inversion Hqq; subst. reflexivity. }
     split.
     { unfold r_kill; cbn [r_pc]. constructor; try assumption; try lia.
       - rewrite Hw. f_equal. lia. }
@@ -725,7 +725,7 @@ Proof.
   assert (Hor : q <> [] \/ 0 < pend -> q ++ x <> [] \/ 0 < pend').
   { intros [Hq|Hq]; [left; auto|]. destruct (Hp Hq); auto. }
   unfold rinv. split; [|split; [exact Hrd|]].
-  - intros E. destruct (Hh E) as (c & q0 & -> & Hb). exists c, (q0 ++ x). auto.
+  - intros E. destruct (Hh E) as (c & q0 & -> & Hb). exists c, (q0 ++ x). split; [reflexivity|exact Hb].
   - destruct (r_pc t); try exact Hpc.
     + destruct Hpc; auto.
     + destruct Hpc; auto.
@@ -892,7 +892,7 @@ Lemma inv_peeked : forall s, Inv s -> r_have (g_r s) = true ->
   nth_error (g_pub s) (length (g_got s)) = Some (r_buf (g_r s)).
 Proof.
   intros s (RP & q & pre & Hpub & Hgot & _ & _ & (Hh & _) & _) E.
-  destruct (Hh E) as (c & q0 & -> & Hb).
+  destruct (Hh E) as (c & q0 & -> & Hb & _).
   pose proof (forall2_len _ _ _ _ _ Hgot) as Hl.
   replace (length (g_got s)) with (length pre) by (symmetry; exact Hl). rewrite Hpub, Hb. rewrite nth_error_app2 by lia. rewrite Nat.sub_diag. reflexivity.
 Qed.
@@ -933,3 +933,99 @@ Lemma all_drained : forall h pw pr sched, wf_ring h ->
   quiescent s = true -> hrpt (g_sh s) = hwpt (g_sh s) ->
   length (g_got s) = length (g_pub s) /\ Forall2 gmatch (g_got s) (g_pub s).
 Proof. intros h pw pr sched H. apply inv_drained. apply all_inv; assumption. Qed.
+
+(* ------------------------------------------------------------------ what the calls RETURN, in terms of the ghost logs *)
+Ltac rstep_cases H :=
+  unfold rstep, rgo, rreturn, r_fail, rc_fail, copy_done, act_wait, act_rd_rpt, act_rc_rd_rpt in H;
+  repeat match type of H with
+         | context [match ?x with _ => _ end] => destruct x eqn:?
+         | context [if ?x then _ else _] => destruct x eqn:?
+         end.
+
+Lemma neg_errnos : - RB_ETIMEDOUT < 0 /\ - RB_EBADMSG < 0 /\ - RB_ENOBUFS < 0.
+Proof. vm_compute. repeat split; reflexivity. Qed.
+
+Lemma rstep_read_returns : forall h t r v bytes,
+  rstep h t = Some r -> s_ret r = Some (v, bytes) -> 0 <= v -> is_read (rcur t) = true -> s_err r = false ->
+  (exists old new, r_pc t = RcStRpt old new) /\ v = r_size t /\ bytes = r_buf t /\
+  s_gh r = GCons (if r_have t then Some (r_buf t) else None).
+Proof.
+  intros h t r v bytes H Hr Hv Hread He.
+  pose proof neg_errnos as (N1 & N2 & N3).
+  destruct (r_pc t) eqn:Epc; unfold rstep in H; rewrite Epc in H;
+    unfold rgo, rreturn, r_fail, rc_fail, copy_done, act_wait, act_rd_rpt, act_rc_rd_rpt in H;
+    rewrite ?Hread in H;
+    repeat match type of H with
+           | context [match ?x with _ => _ end] => destruct x eqn:?
+           end;
+    try discriminate; inversion H; subst r; clear H; cbn [s_ret s_err s_gh] in *;
+    try discriminate; inversion Hr; subst; try lia.
+  all: repeat split; eauto.
+Qed.
+
+Lemma rstep_peek_returns : forall h t r v bytes,
+  rstep h t = Some r -> s_ret r = Some (v, bytes) -> 0 < v -> is_read (rcur t) = false -> r_prog t <> [] ->
+  rcur t <> RReclaim ->
+  s_gh r = GNone /\ r_have (s_t r) = true /\ r_buf (s_t r) = bytes /\ r_size (s_t r) = v.
+Proof.
+  intros h t r v bytes H Hr Hv Hread Hprog Hnr.
+  pose proof neg_errnos as (N1 & N2 & N3).
+  destruct (r_pc t) eqn:Epc; unfold rstep in H; rewrite Epc in H;
+    unfold rgo, rreturn, r_fail, rc_fail, copy_done, act_wait, act_rd_rpt, act_rc_rd_rpt in H;
+    rewrite ?Hread in H;
+    repeat match type of H with
+           | context [match ?x with _ => _ end] => destruct x eqn:?
+           end;
+    try discriminate; inversion H; subst r; clear H; cbn [s_ret s_err s_gh s_t r_ret r_have r_buf r_size] in *;
+    try discriminate; inversion Hr; subst; try lia; try (repeat split; reflexivity).
+  all: unfold rcur in *; try congruence.
+Qed.
+
+(* qb_rb_chunk_read returning a length: the bytes delivered are exactly the oldest unconsumed published chunk, the
+   length is its length, and the same step consumes it *)
+Theorem read_return_ok : forall s s' lab v bytes,
+  Inv s -> step TR s = Some (s', (lab, Some (v, bytes))) -> 0 <= v -> is_read (rcur (g_r s)) = true ->
+  nth_error (g_pub s) (length (g_got s)) = Some bytes /\ v = zlen bytes /\
+  g_got s' = g_got s ++ [Some bytes] /\ g_pub s' = g_pub s.
+Proof.
+  intros s s' lab v bytes HI Hst Hv Hread.
+  pose proof (inv_step _ _ _ _ HI Hst) as (RP' & q' & pre' & _ & _ & _ & _ & _ & _ & Herr').
+  destruct HI as (RP & q & pre & Hpub & Hgot & HC & Hwi & (Hh & Hrd & Hpc) & Hsem & Herr).
+  unfold step in Hst. destruct (rstep (g_sh s) (g_r s)) as [r|] eqn:Er; [|discriminate].
+  destruct (apply_ghost (s_gh r) (g_pub s) (g_got s)) as [pub got] eqn:Eg.
+  inversion Hst; subst s' lab. clear Hst. cbn [g_err g_got g_pub] in *.
+  assert (He : s_err r = false) by (destruct (g_err s), (s_err r); cbn in Herr'; congruence).
+  match goal with H : s_ret r = _ |- _ => rename H into Hret end.
+  destruct (rstep_read_returns _ _ _ _ _ Er Hret Hv Hread He) as ((old & new & Epc) & -> & -> & Egh).
+  assert (Hhv : r_have (g_r s) = true) by (apply Hrd; [rewrite Epc; reflexivity | assumption]).
+  destruct (Hh Hhv) as (c & q0 & -> & Hb & Hsz).
+  rewrite Egh, Hhv in Eg. cbn [apply_ghost] in Eg. inversion Eg; subst pub got.
+  pose proof (forall2_len _ _ _ _ _ Hgot) as Hl.
+  replace (length (g_got s)) with (length pre) by (symmetry; exact Hl).
+  rewrite Hpub, Hb, Hsz. rewrite nth_error_app2 by lia. rewrite Nat.sub_diag.
+  repeat split; reflexivity.
+Qed.
+
+(* qb_rb_chunk_peek returning a positive length (+ the consumer's copy): the bytes are exactly the oldest
+   unconsumed published chunk, the length is its length, nothing is consumed *)
+Theorem peek_return_ok : forall s s' lab v bytes blk,
+  Inv s -> step TR s = Some (s', (lab, Some (v, bytes))) -> 0 < v -> rcur (g_r s) = RPeek blk -> r_prog (g_r s) <> [] ->
+  nth_error (g_pub s) (length (g_got s)) = Some bytes /\ v = zlen bytes /\
+  g_got s' = g_got s /\ g_pub s' = g_pub s.
+Proof.
+  intros s s' lab v bytes blk HI Hst Hv Hcur Hprog.
+  pose proof (inv_step _ _ _ _ HI Hst) as HI'.
+  unfold step in Hst. destruct (rstep (g_sh s) (g_r s)) as [r|] eqn:Er; [|discriminate].
+  destruct (apply_ghost (s_gh r) (g_pub s) (g_got s)) as [pub got] eqn:Eg.
+  inversion Hst; subst s' lab. clear Hst.
+  match goal with H : s_ret r = _ |- _ => rename H into Hret end.
+  assert (Hnr : is_read (rcur (g_r s)) = false) by (rewrite Hcur; reflexivity).
+  assert (Hnc : rcur (g_r s) <> RReclaim) by (rewrite Hcur; discriminate).
+  destruct (rstep_peek_returns _ _ _ _ _ Er Hret Hv Hnr Hprog Hnc) as (Egh & Hhv & Hb & Hsz).
+  rewrite Egh in Eg. cbn [apply_ghost] in Eg. inversion Eg; subst pub got.
+  pose proof (inv_peeked _ HI' Hhv) as Hn. cbn [g_pub g_got g_r] in Hn. rewrite Hb in Hn.
+  destruct HI' as (RP & q & pre & _ & _ & _ & _ & (Hh & _) & _). cbn [g_r] in Hh.
+  destruct (Hh Hhv) as (c & q0 & _ & Hb' & Hsz').
+  cbn [g_got g_pub]. split; [exact Hn|]. split; [|split; reflexivity].
+  rewrite <- Hsz, Hsz', <- Hb', Hb. reflexivity.
+Qed.
